@@ -318,6 +318,39 @@ def r3_transitions(ctx):
                'undocumented transition(s) %s -> %s: %s' % (prev, sorted(labels - TABLE[prev]) or labels, 'prose can become a want without source' if prev == 'text' and 'want' in labels else
                                                            ('a want can continue as a continuation line' if prev == 'want' and 'dcnt' in labels else 'outside the documented table')), anchor=LABEL)
     rep.note('label_transition_table', table)
+    # R3b: a prompt-prefixed line is source whatever its indentation.  For each previous state, the assignment
+    # of the source label reached by a prompt line must not be edge-dominated by an indentation comparison.
+    dom = ctx.dom(g, entry, cut)
+    seen_sites = {}
+    for prev in ('text', 'want', 'dsrc', 'dcnt'):
+        def ef2(a, b, kind, tok, prev=prev):
+            if kind != 'n':
+                return False
+            if b.kind == 'branch' and b.attrs['test'].kind == 'test':
+                t = truth(b.attrs['test'].ast, prev)
+                if t is not None and t != b.attrs['polarity']:
+                    return False
+            return True
+        reach = set(id(x) for x in graph.reachable([entry], efilter=ef2, stop=[head]))
+        for d in cur_defs:
+            if id(d.node) not in reach or any(graph.in_loop_body(d.node, ih.ast) for ih in inner):
+                continue
+            if not (isinstance(d.value, ast.AST) and val_of(d.value) == 'dsrc'):
+                continue
+            facts = graph.guard_facts(dom, d.node)
+            # only prompt ('>>>') recognitions
+            if not any(isinstance(fa.expr, ast.Call) and '>>>' in fa.text and fa.polarity is True for fa in facts):
+                continue
+            indent = [fa for fa in facts if isinstance(fa.expr, ast.AST) and any(isinstance(x, ast.Name) and x.id in ('line_indent', 'state_indent') for x in ast.walk(fa.expr))]
+            key = id(d.node)
+            seen_sites.setdefault(key, (d, [], indent))[1].append(prev)
+    for key, (d, prevs, indent) in seen_sites.items():
+        ok = not indent
+        rep.ob('C13.R3b', ctx.loc(f, d.node.ast), 'prompt line after %s -> source' % '|'.join(sorted(prevs)), ok,
+               'a prompt-prefixed line becomes source irrespective of its indentation' if ok else
+               'after %s a prompt-prefixed line is only recognised as source when %s: a `>>>` line that is indented less than the preceding block is labelled prose and its '
+               'statement is silently dropped' % ('|'.join(sorted(prevs)), fmt_facts(indent)), anchor=LABEL)
+    rep.floor('C13.R3', 'prompt recognition sites', len(seen_sites), 2)
     # prev_state is advanced from curr_state once per iteration
     adv = [n for n in g.nodes if n.kind == 'stmt' and not n.dup and isinstance(n.ast, ast.Assign) and is_name(n.ast.targets[0], 'prev_state') and is_name(n.ast.value, 'curr_state') and graph.in_loop_body(n, head.ast)]
     res = graph.count_events(entry, lambda x: any(x is a for a in adv), lambda x: x is head, efilter=graph.normal_only)
@@ -561,6 +594,9 @@ VARIANTS = [
     fire('counter-ignores-want-lines', 'C13.R6', (PA, "                lineno += len(slines) + len(wlines)\n", "                lineno += len(slines)\n")),
     fire('counter-not-advanced-for-text', 'C13.R6', (PA, "                yield text_part\n                lineno += len(chunk)\n", "                yield text_part\n")),
     fire('counter-advanced-before-packaging', 'C13.R6', (PA, "                for example in self._package_chunk(slines, wlines, lineno):\n                    yield example\n                lineno += len(slines) + len(wlines)\n", "                lineno += len(slines) + len(wlines)\n                for example in self._package_chunk(slines, wlines, lineno):\n                    yield example\n")),
+    fire('prompt-after-want-needs-indentation', 'C13.R3b',
+         (PA, "                if len(strip_line) == 0:\n                    curr_state = TEXT\n                # source-inconsistent indentation terminates want\n                elif _hasprefix(line.strip(), ('>>>',)):\n                    curr_state = DSRC\n                elif line_indent < state_indent:\n                    curr_state = TEXT\n",
+              "                if len(strip_line) == 0 or line_indent < state_indent:\n                    curr_state = TEXT\n                elif _hasprefix(line.strip(), ('>>>',)):\n                    curr_state = DSRC\n")),
     silent('want-text-appends-merged', (PA, "            elif curr_state == WANT:\n                labeled_lines.append((curr_state, line))\n            elif curr_state == TEXT:\n                labeled_lines.append((curr_state, line))\n",
                                             "            elif curr_state in {WANT, TEXT}:\n                labeled_lines.append((curr_state, line))\n"),
            note='exhaustiveness of the dispatch over curr_state is the state machine invariant; see below'),
